@@ -6,7 +6,7 @@
    symbols outside the alphabet), or longer than max_length. *)
 From Coq Require Import List Arith Bool Sorted.
 From AV Require Import Base.Util Spec.Lang Spec.FA Spec.DictOrder Model.Product Model.Succ Model.SuccMachine
-                       Proofs.Finite Proofs.Succ Proofs.SuccMachine.
+                       Proofs.Finite Proofs.Succ Proofs.SuccMachine Proofs.SuccMachineRev.
 Import ListNotations.
 
 (* the order the property talks about is a decidable strict total order in which a proper prefix
@@ -152,6 +152,17 @@ Theorem C14_machine_refines_successors : forall fuel m start strict lo ohi l,
   l = succ_list m start strict lo (the_hi m ohi).
 Proof. exact machine_forward_correct. Qed.
 Print Assumptions C14_machine_refines_successors.
+
+(* T2, reverse direction (predecessors = successors(reverse=True), with the row-8 repair): post-order
+   over the descending alphabet, the empty word generated after the loop *)
+Theorem C14_machine_refines_predecessors : forall fuel m start strict lo ohi l,
+  valid_dfa m = true ->
+  finite_lang (L_dfa m) ->
+  (forall s, start = Some s -> Forall (fun a => In a (d_syms m)) s) ->
+  succ_machine fuel m start strict true lo ohi = Ok l ->
+  l = pred_list m start strict lo (the_hi m ohi).
+Proof. exact machine_reverse_correct. Qed.
+Print Assumptions C14_machine_refines_predecessors.
 
 (* ---- non-vacuity ---- *)
 (* partial DFA over {0,1}: 0 -0-> 1, 0 -1-> 2, 1 -1-> 2; finals {0,2}: L = {e, 1, 01} *)
